@@ -92,6 +92,38 @@ fn oracle(sim: &Sim, stack0: &Stack, pos0: usize, max_cost: usize) -> Option<Vec
     None
 }
 
+/// plain LR parse of a token sequence into a tree skeleton ("(rule child child ..)" / "t<id>"); None if rejected
+fn skeleton(grm: &YaccGrammar<u32>, st: &StateTable<u32>, toks: &[TIdx<u32>]) -> Option<String> {
+    let mut stack: Stack = vec![st.start_state()];
+    let mut trees: Vec<String> = Vec::new();
+    let mut i = 0;
+    let mut fuel = 100_000;
+    loop {
+        fuel -= 1; if fuel == 0 { return None; }
+        let la = if i < toks.len() { toks[i] } else { grm.eof_token_idx() };
+        match st.action(*stack.last().unwrap(), la) {
+            Action::Shift(s) => { stack.push(s); trees.push(format!("t{}", u32::from(la))); i += 1; }
+            Action::Reduce(p) => {
+                let n = grm.prod(p).len();
+                let l = stack.len(); stack.truncate(l - n);
+                let kids: Vec<String> = trees.split_off(trees.len() - n);
+                let r = grm.prod_to_rule(p);
+                trees.push(format!("({} {})", u32::from(r), kids.join(" ")));
+                match st.goto(*stack.last().unwrap(), r) { Some(s) => stack.push(s), None => return None }
+            }
+            Action::Accept => return if i == toks.len() && trees.len() == 1 { trees.pop() } else { None },
+            Action::Error => return None,
+        }
+    }
+}
+fn node_skeleton(n: &lrpar::Node<lrlex::DefaultLexeme<u32>, u32>) -> String {
+    use lrpar::Lexeme;
+    match n {
+        lrpar::Node::Term { lexeme } => format!("t{}", lexeme.tok_id()),
+        lrpar::Node::Nonterm { ridx, nodes } => format!("({} {})", u32::from(*ridx), nodes.iter().map(node_skeleton).collect::<Vec<_>>().join(" ")),
+    }
+}
+
 fn once(gsrc: String, input: String) -> Result<String, String> {
     let grm = YaccGrammar::<u32>::new_with_storaget(YaccKind::Original(YaccOriginalActionKind::GenericParseTree), &gsrc).map_err(|_| "grammar".to_string())?;
     let (_, stable) = from_yacc(&grm, Minimiser::Pager).map_err(|_| "table".to_string())?;
@@ -106,7 +138,7 @@ fn once(gsrc: String, input: String) -> Result<String, String> {
     let costf = |_: TIdx<u32>| 1u8;
     let pb = RTParserBuilder::new(&grm, &stable).recoverer(RecoveryKind::CPCTPlus).term_costs(&costf);
     #[allow(deprecated)]
-    let (_tree, errs) = catch_unwind(AssertUnwindSafe(|| pb.parse_generictree(&lexer))).map_err(|_| "panic inside parse".to_string())?;
+    let (tree_, errs) = catch_unwind(AssertUnwindSafe(|| pb.parse_generictree(&lexer))).map_err(|_| "panic inside parse".to_string())?;
     let pe = match errs.first() { Some(LexParseError::ParseError(pe)) => pe, _ => return Ok("no parse error".into()) };
     // where the error is, and the stack there: replay plain LR up to it
     let sim = Sim { grm: &grm, st: &stable, toks };
@@ -147,6 +179,24 @@ fn once(gsrc: String, input: String) -> Result<String, String> {
         if w[0] > w[1] { return Err(format!("reported order (inserts an avoided token, length) = {:?} is not sorted", keys)); }
     }
     if pe.repairs().is_empty() { return Ok("no repairs (budget)".into()); }
+    // C05: with a single error, the value is the one a plain parse gives for the input with the FIRST reported sequence applied
+    if errs.len() == 1 {
+        let mut rep: Vec<TIdx<u32>> = sim.toks[..pos].to_vec();
+        let mut k = pos;
+        for r in &pe.repairs()[0] {
+            match r {
+                ParseRepair::Insert(t) => rep.push(*t),
+                ParseRepair::Delete(_) => k += 1,
+                ParseRepair::Shift(_) => { if k < sim.toks.len() { rep.push(sim.toks[k]); } k += 1; }
+            }
+        }
+        if k <= sim.toks.len() { rep.extend_from_slice(&sim.toks[k..]); }
+        match (skeleton(&grm, &stable, &rep), tree_.as_ref().map(node_skeleton)) {
+            (Some(a), Some(b)) => if a != b { return Err(format!("the value is {} but parsing the input with the first reported sequence {:?} applied gives {}", b, pe.repairs()[0].iter().map(|r| match r { ParseRepair::Insert(t) => format!("Insert {}", u32::from(*t)), ParseRepair::Delete(_) => "Delete".to_string(), ParseRepair::Shift(_) => "Shift".to_string() }).collect::<Vec<_>>(), a)); },
+            (None, Some(_)) => return Err("the input with the first reported sequence applied is rejected by a plain parse, yet a value was returned for one error".into()),
+            _ => (),
+        }
+    }
     if got != exp { return Err(format!("reported repair sequences {:?}, the minimum-cost repairs that get furthest are {:?}", got, exp)); }
     Ok(format!("{} sequences", got.len()))
 }
